@@ -221,7 +221,19 @@ def apply(src_text, overlay, notes=None, trace=None, skip_ops=()):
                     notes.append('anchor line gone, inserted before /%s/' % op['before'][:40])
             inserts.setdefault(idx, []).append((op['text'], opidx[id(op)]))
         elif op['op'] == 'loop':
-            idx = _locate(an, op['at'], op['nth'], op['line'], overlay['src_lines'], notes)
+            try:
+                idx = _locate(an, op['at'], op['nth'], op['line'], overlay['src_lines'], notes)
+            except AnchorLost:
+                idx = None
+            if idx is not None and idx in loops and an[idx] != op['at']:
+                idx = None       # a soft anchor must never displace the spec of another loop
+            if idx is None:
+                cands = [k for k in range(len(an)) if _is_loop_line(an[k]) and k not in loops and difflib.SequenceMatcher(a=an[k], b=op['at']).ratio() > 0.6]
+                if not cands:
+                    notes.append('loop spec dropped (its loop /%s/ is gone)' % op['at'][:40])
+                    continue
+                idx = min(cands, key=lambda k: abs(k - op['line']))
+                notes.append('loop spec re-anchored for /%s/' % op['at'][:40])
             if not _is_loop_line(an[idx]):
                 # the anchored line is no longer a loop header: look for the nearest one
                 cands = [k for k in range(len(an)) if _is_loop_line(an[k]) and k not in loops]
